@@ -132,7 +132,7 @@ func (ex *Exec) instr(b *ssa.BasicBlock, in ssa.Instruction) {
 	case *ssa.MakeClosure:
 		a := ex.newObject(in.Name())
 		ex.v.closures[a] = in
-		ex.closureVals[a] = in
+		ex.top.closureVals[a] = in
 		ex.set(in, refVal(a, in.Type()))
 	case *ssa.Call:
 		ex.call(in, in.Common(), r)
